@@ -76,14 +76,14 @@ BENIGN = [b'"a"', b'"INBOX"', b'"user@example.com"', b'"Subject"', b'"x y"',
 HOSTILE = [b'""', b'"a\\"b"', b'"x\\""', b'"b\\\\"', b'"\\\\\\""', b'"[a]"',
            b'"a,b"', b'"a\\", \\"b"', b'"]"', b'"["', b'","', b'":is"',
            b'"text:"', b'"# no comment"', b'"/* no */"', b'"{ } ;"',
-           b'"l1\nl2"', b'"\xc3\xa9t\xc3\xa9"', b'"\xe2\x82\xac"', b'"a\tb"',
+           b'"l1\nl2"', b'"l1\r\nl2\r\n"', b'"\xc3\xa9t\xc3\xa9"', b'"\xe2\x82\xac"', b'"a\tb"',
            b'"\\a"', b'"if"', b'"1K"', b'"$"', b'"."', b'"a "', b'" a"',
            b'"\'q\'"', b'"%s"', b'"{0}"']
 MULTILINES = [b"text:\nhello\n.", b"text:\n.", b"text: \nA\nB\n.",
               b"text:# c\nX\n.", b"text:\n..stuffed\n.", b"text:\n...\n.",
               b"text:\n\nblank above\n.", b"text:\n\xc3\xa9\n.",
               b'text:\n"quoted" [x] ; }\n.', b"text:\nif true { keep; }\n.",
-              b"text:\n.x\n.", b"text:\ncost $5\n."]
+              b"text:\n.x\n.", b"text:\ncost $5\n.", b"text:\r\nA\r\n..B\r\n."]
 
 
 class ValueGen:
@@ -616,3 +616,90 @@ def scale_families():
         "quotes": lambda n: b'"' * n,
     }
     return fam
+
+
+# ---------------------------------------------------------------------------
+# W-LONG: structurally ordinary scripts with ONE dimension made large, sized at the
+# numeric boundaries implementations trip over (small-int cache 256/257, 1024, 4096,
+# CPython's 4300-digit int conversion limit, 65536)
+# ---------------------------------------------------------------------------
+COUNT_BOUNDS = [1, 2, 255, 256, 257, 258, 259, 300, 1023, 1024, 1025]
+SIZE_BOUNDS = [1022, 1023, 1024, 1025, 4095, 4096, 4097, 8192, 65535, 65536]
+DIGIT_BOUNDS = [9, 10, 11, 19, 20, 21, 100, 4299, 4300, 4301, 5000, 20000]
+
+
+def _commas(items):
+    out = []
+    for i, it in enumerate(items):
+        if i:
+            out.append(b",")
+        out.extend(it if isinstance(it, list) else [it])
+    return out
+
+
+def long_cases(rng, quick=True):
+    """yield (family, n, toks, exts)"""
+    leaf = [[b"true"], [b"false"], [b"exists", b'"h"'], [b"size", b":over", b"1K"],
+            [b"header", b":is", b'"a"', b'"b"'], [b"not", b"true"]]
+    counts = COUNT_BOUNDS if quick else COUNT_BOUNDS + [2047, 2048, 4096, 4097]
+    for n in counts:
+        tests = [list(rng.choice(leaf)) if i % 7 else [b"size", b":over", b"%dK" % i]
+                 for i in range(n)]
+        for comb in (b"anyof", b"allof"):
+            yield ("testlist", n, [b"if", comb, b"("] + _commas(tests) + [b")", b"{", b"keep", b";", b"}"], [])
+        yield ("testlist-nested", n,
+               [b"if", b"allof", b"(", b"not", b"anyof", b"("] + _commas(tests)
+               + [b")", b",", b"true", b")", b"{", b"stop", b";", b"}"], [])
+        strs = [b'"h%d"' % i for i in range(n)]
+        yield ("stringlist", n, [b"if", b"exists", b"["] + _commas(strs)
+               + [b"]", b"{", b"discard", b";", b"}"], [])
+        yield ("stringlist-2", n, [b"if", b"header", b":contains", b"["] + _commas(strs)
+               + [b"]", b"["] + _commas(strs[::-1]) + [b"]", b"{", b"}"], [])
+        yield ("stringlist-action", n, [b"require", b'"imap4flags"', b";", b"addflag", b"["]
+               + _commas(strs) + [b"]", b";"], ["imap4flags"])
+        body = []
+        for i in range(n):
+            body += rng.choice([[b"keep", b";"], [b"stop", b";"], [b"discard", b";"],
+                                [b"redirect", b'"a%d@example.com"' % i, b";"]])
+        yield ("block", n, [b"if", b"true", b"{"] + body + [b"}"], [])
+        yield ("toplevel", n, list(body), [])
+        chain = [b"if", b"true", b"{", b"}"]
+        for i in range(n):
+            chain += [b"elsif", b"exists", b'"x%d"' % i, b"{", b"keep", b";", b"}"]
+        yield ("elsif-chain", n, chain + [b"else", b"{", b"stop", b";", b"}"], [])
+        yield ("require-list", n, [b"require", b"["] + _commas([b'"fileinto"'] * n)
+               + [b"]", b";", b"fileinto", b'"x"', b";"], ["fileinto"])
+        if n <= 300:
+            yield ("not-chain", n, [b"if"] + [b"not"] * n + [b"true", b"{", b"keep", b";", b"}"], [])
+    for n in (10, 30, 60) if quick else (10, 30, 60, 100, 150):
+        yield ("if-nest", n, [b"if", b"true", b"{"] * n + [b"keep", b";"] + [b"}"] * n, [])
+        yield ("anyof-nest", n, [b"if"] + [b"anyof", b"("] * n + [b"true"] + [b")"] * n
+               + [b"{", b"}"], [])
+    for n in SIZE_BOUNDS:
+        s = b'"' + b"a" * n + b'"'
+        yield ("string", n, [b"redirect", s, b";"], [])
+        yield ("string-escapes", n, [b"redirect", b'"' + b'\\"' * (n // 2) + b"b" * (n % 2) + b'"',
+                                     b";"], [])
+        yield ("string-in-list", n, [b"if", b"header", b":is", b'"h"', b"[", s, b",", b'"b"', b"]",
+                                     b"{", b"}"], [])
+        yield ("multiline-one-line", n, [b"require", b'"reject"', b";", b"reject",
+                                         b"text:\n" + b"x" * n + b"\n.", b";"], ["reject"])
+        if n <= 8192:
+            yield ("multiline-lines", n, [b"require", b'"reject"', b";", b"reject",
+                                          b"text:\n" + b"l\n" * n + b".", b";"], ["reject"])
+            yield ("multiline-dotlines", n, [b"require", b'"reject"', b";", b"reject",
+                                             b"text:\n" + b"..\n" * n + b".", b";"], ["reject"])
+        yield ("identifier", n, [b"a" * n, b";"], [])
+        yield ("identifier-test", n, [b"if", b"b" * n, b"{", b"}"], [])
+        yield ("tag", n, [b"if", b"header", b":" + b"t" * n, b'"a"', b'"b"', b"{", b"}"], [])
+        yield ("hash-comment", n, [b"#" + b"c" * n + b"\nkeep", b";"], [])
+        yield ("bracket-comment", n, [b"/*" + b"c" * n + b"*/", b"keep", b";"], [])
+        yield ("utf8-string", n, [b"redirect", b'"' + "é".encode() * (n // 2) + b'"', b";"], [])
+    for n in DIGIT_BOUNDS:
+        for d in (b"1" * n, b"0" * n, b"9" * n):
+            for q in (b"", b"K", b"g"):
+                yield ("number-size", n, [b"if", b"size", b":over", d + q, b"{", b"keep", b";", b"}"], [])
+            yield ("number-days", n, [b"require", b'"vacation"', b";", b"vacation", b":days", d,
+                                      b'"x"', b";"], ["vacation"])
+            yield ("number-surplus", n, [b"keep", d, b";"], [])
+            yield ("number-where-string", n, [b"redirect", d, b";"], [])
